@@ -106,16 +106,25 @@ fn parse_table(out: &str, sym: &str) -> Result<(bool, Grid), String> {
     } else { Err(format!("unrecognised table header '{}'", lines[0])) }
 }
 
-fn lib_kh<R>(l: &yui_link::Link, h: &R, t: &R, red: bool, bigraded: bool) -> (String, Grid) where R: yui::EucRing, for<'x> &'x R: yui::EucRingOps<R> {
+fn lib_kh<R>(l: &yui_link::Link, h: &R, t: &R, red: bool, bigraded: bool) -> (String, Grid, Option<String>) where R: yui::EucRing, for<'x> &'x R: yui::EucRingOps<R> {
     let kh = KhHomology::<R>::new(l, h, t, red);
     let mut g = Grid::new();
+    let mut note = None;
     if bigraded {
         let b = kh.into_bigraded();
         for idx in b.support() { let s = &b[(idx.0, idx.1)]; let mut ts: Vec<String> = s.tors().iter().map(|x| x.to_string()).collect(); ts.sort(); if s.rank() > 0 || !ts.is_empty() { g.insert((idx.0, idx.1), (s.rank(), ts)); } }
+        // the (i,j) table must be a regrouping of the homology per homological degree: same total rank and the same multiset of torsion orders
+        let mut per: BTreeMap<isize, (usize, Vec<String>)> = BTreeMap::new();
+        for ((i, _), (r, ts)) in &g { let e = per.entry(*i).or_insert((0, vec![])); e.0 += r; e.1.extend(ts.iter().cloned()); }
+        for i in kh.support() {
+            let s = &kh[i]; let mut ts: Vec<String> = s.tors().iter().map(|x| x.to_string()).collect(); ts.sort();
+            let (r2, mut t2) = per.get(&i).cloned().unwrap_or((0, vec![])); t2.sort();
+            if (s.rank(), &ts) != (r2, &t2) && note.is_none() { note = Some(format!("homological degree {i}: the homology has rank {} and torsion orders {:?}, the cells (i,j) of the bigraded table add up to rank {r2} and torsion orders {:?}", s.rank(), ts, t2)); }
+        }
     } else {
         for i in kh.support() { let s = &kh[i]; let mut ts: Vec<String> = s.tors().iter().map(|x| x.to_string()).collect(); ts.sort(); if s.rank() > 0 || !ts.is_empty() { g.insert((i, 0), (s.rank(), ts)); } }
     }
-    (R::math_symbol(), g)
+    (R::math_symbol(), g, note)
 }
 
 fn lib_ckh<R>(l: &yui_link::Link, h: &R, t: &R, red: bool) -> (String, Grid) where R: yui::Ring, for<'x> &'x R: yui::RingOps<R> {
@@ -126,7 +135,7 @@ fn lib_ckh<R>(l: &yui_link::Link, h: &R, t: &R, red: bool) -> (String, Grid) whe
     (R::math_symbol(), g)
 }
 
-enum Expect { Table { sym: String, grid: Grid, exact: bool, bigraded: Option<bool> }, ErrorOnly, Either }
+enum Expect { Table { sym: String, grid: Grid, exact: bool, bigraded: Option<bool>, lib_note: Option<String> }, ErrorOnly, Either }
 
 fn run_case(c: &Case, tier: Tier) -> Chk<Pass> {
     // ---- arguments
@@ -166,7 +175,7 @@ fn run_case(c: &Case, tier: Tier) -> Chk<Pass> {
         macro_rules! consts { ($R:ty, $mk:expr) => {{ let mk = $mk; match p { P::C(a, b) => Some((mk(a), mk(b))), _ => None } }} }
         let r = guard(|| -> Option<Expect> {
             if !c.ckh {
-                let (sym, grid) = match (ct, p) {
+                let (sym, grid, lib_note) = match (ct, p) {
                     (CT_::Z, P::C(a, b)) => lib_kh::<i64>(&l, &a, &b, red, kh_bigraded),
                     (CT_::Q, P::C(a, b)) => lib_kh::<Ratio<i64>>(&l, &Ratio::from(a), &Ratio::from(b), red, kh_bigraded),
                     (CT_::Q, P::Half) => lib_kh::<Ratio<i64>>(&l, &Ratio::new(1, 2), &Ratio::from(0), red, false),
@@ -182,7 +191,7 @@ fn run_case(c: &Case, tier: Tier) -> Chk<Pass> {
                     _ => return Some(Expect::ErrorOnly),
                 };
                 let _ = consts!(i64, |x: i64| x);
-                Some(Expect::Table { sym, grid, exact: true, bigraded: None })
+                Some(Expect::Table { sym, grid, exact: true, bigraded: None, lib_note })
             } else {
                 let (sym, grid, exact) = match (ct, p) {
                     (CT_::Z, P::C(a, b)) => { let (s, g) = lib_ckh::<i64>(&l, &a, &b, red); (s, g, false) }
@@ -204,7 +213,7 @@ fn run_case(c: &Case, tier: Tier) -> Chk<Pass> {
                     (CT_::F3, P::HT) => { let (s, g) = lib_ckh::<Poly2<'H', 'T', FF<3>>>(&l, &Poly2::variable(0), &Poly2::variable(1), red); (s, g, false) }
                     _ => return Some(Expect::Either),
                 };
-                Some(Expect::Table { sym, grid, exact, bigraded: Some(true) })
+                Some(Expect::Table { sym, grid, exact, bigraded: Some(true), lib_note: None })
             }
         });
         match r { Ok(Some(e)) => e, Ok(None) => Expect::Either, Err(_) => Expect::Either } // the library itself rejects (panics): CLI must answer with an error or the same refusal
@@ -225,7 +234,8 @@ fn run_case(c: &Case, tier: Tier) -> Chk<Pass> {
     match expect {
         Expect::ErrorOnly => { err_ok(&out)?; pass = pass.label("error-case").nt(!matches!(c.link, LinkArg::Unknown(_))); }
         Expect::Either => { if out.code == Some(0) { pass = pass.label("either:answered"); } else { err_ok(&out)?; pass = pass.label("either:refused"); } }
-        Expect::Table { sym, grid, exact, .. } => {
+        Expect::Table { sym, grid, exact, lib_note, .. } => {
+            if let Some(n) = lib_note { return bad(format!("{what}: the (i,j) table that the kh command prints (KhHomology::into_bigraded) is not a regrouping of the homology it is derived from: {n}")) }
             if out.code != Some(0) {
                 // a maintainer may restrict support, but then it must be a clean error
                 err_ok(&out)?;
@@ -264,7 +274,7 @@ impl Prop for C20 {
     type Case = Case;
     const ID: &'static str = "C20";
     fn rule() -> String {
-        "case = argument vector: {kh, ckh} x -t {absent, Z, Q, F2, F3, Gauss} x -c {absent, integers, 'a,b', '1/2', H, '0,T', 'H,T', 'H,0', garbage} x -m x -r x link in {table names <= 9 crossings (and, less often, the 10-crossing names 10_k, L10a_k, L10n_k; thorough: also the 11-crossing ones), PD JSON of generated diagrams, '[]', unknown names, malformed JSON / arity / negative numbers / path-like strings} x optional unknown flag; the binary built from /repo runs as a child process (120 s watchdog). \
+        "case = argument vector: {kh, ckh} x -t {absent, Z, Q, F2, F3, Gauss} x -c {absent, integers, 'a,b', '1/2', H, '0,T', 'H,T', 'H,0', garbage} x -m x -r x link in {table names <= 9 crossings (and, less often, the 10-crossing names 10_k, L10a_k, L10n_k and the twelve homologically thick knots up to 10 crossings; thorough: also the 11-crossing names), PD JSON of generated diagrams, '[]', unknown names, malformed JSON / arity / negative numbers / path-like strings} x optional unknown flag; the binary built from /repo runs as a child process (120 s watchdog). \
          supported combinations: exit status 0 and the first table on stdout, parsed by a small grammar (cells separated by >= 2 blanks; Sym, Sym^r, (Sym/t), (Sym/t)^r joined by (+); '.'/'0' = zero), lists exactly the library's groups (rank and multiset of torsion strings, ring symbol) in the same (i,j) cells for kh and for ckh over fields; for ckh over Z and polynomial rings (whose generator counts depend on the engine's per-process elimination order) the graded Euler characteristic per q is compared; \
          unsupported combinations (kh over Z[H], Z[T], R[H,T]; Gauss in the default build; reduced with t != 0; 1/2 outside Q), malformed input, unknown names and unknown flags: non-zero exit, a message on stderr, no table on stdout; combinations the library itself rejects: either outcome, but never a table together with a failure status. \
          non-trivial = a supported combination with a non-default option, or an error case other than an unknown name".into()
@@ -281,6 +291,8 @@ impl Prop for C20 {
         let link = prop_oneof![
             8 => prop::sample::select(names).prop_map(LinkArg::Name),
             2 => prop::sample::select(names_big).prop_map(LinkArg::Name),
+            // the homologically thick knots up to 10 crossings: the tables with the richest torsion (several orders in one homological degree)
+            2 => prop::sample::select(vec!["8_19", "9_42", "10_124", "10_128", "10_132", "10_136", "10_139", "10_145", "10_152", "10_153", "10_154", "10_161"]).prop_map(|s| LinkArg::Name(s.to_string())),
             4 => dspec_strategy(tier.pick(6, 8), 1).prop_map(LinkArg::Pd),
             1 => Just(LinkArg::EmptyPd),
             2 => prop::sample::select(vec!["foo", "3_99", "11_1", "K99a1", "L0a0", "0_1", "3_1.json", "../links/3_1", "/etc/passwd", ""]).prop_map(|s| LinkArg::Unknown(s.to_string())),
